@@ -1,6 +1,7 @@
 (* C15 -- Ere.v : executable model of POSIX extended regular expressions as compiled by
    regcomp(.., REG_EXTENDED) and run by regexec(.., 0, NULL, 0) (glibc, C locale), for the
-   subset of regex strings that StringMatcher::SetPattern can produce from a simple pattern.
+   subset of regex strings that StringMatcher::SetPattern can produce from a simple pattern
+   (plus the postfix operators + and ?, which only raw-regex patterns can contain).
 
    This file stands for the external functions regcomp/regexec.  The theorems about the
    StringMatcher model are stated against it (premise [engine_is_ere] in PatProofs.v); the
@@ -153,6 +154,19 @@ Definition star_last (f : frame) : option frame :=
   | None => None
   end.
 
+(* r+ is r r*, r? is (r|) *)
+Definition plus_last (f : frame) : option frame :=
+  match f_last f with
+  | Some r => Some (mkF (f_alts f) (f_cat f) (Some (ECat r (EStar r))))
+  | None => None
+  end.
+
+Definition opt_last (f : frame) : option frame :=
+  match f_last f with
+  | Some r => Some (mkF (f_alts f) (f_cat f) (Some (EAlt r EEps)))
+  | None => None
+  end.
+
 Definition bar_frame (f : frame) : frame := mkF (Some (close_frame f)) None None.
 
 (* ------------------------------------------------------------------ compiling: bracket expressions *)
@@ -249,7 +263,11 @@ Definition step_norm (st : pstate) (c : N) : sres :=
   else if c =? ch_bar then SOk (with_cur st (bar_frame f))
   else if c =? ch_star then
     match star_last f with Some f' => SOk (with_cur st f') | None => SErr end   (* REG_BADRPT *)
-  else if (c =? ch_plus) || (c =? ch_qm) || (c =? ch_lbrace) then SUnsup
+  else if c =? ch_plus then
+    match plus_last f with Some f' => SOk (with_cur st f') | None => SErr end
+  else if c =? ch_qm then
+    match opt_last f with Some f' => SOk (with_cur st f') | None => SErr end
+  else if c =? ch_lbrace then SUnsup
   else if c =? ch_lbr then SOk (mkP (p_stack st) f (MBr (mkB false [] BP0)))
   else if c =? ch_dot then SOk (with_cur st (push_atom f EAny))
   else if c =? ch_hat then SOk (with_cur st (push_anchor f EBol))
